@@ -114,6 +114,53 @@ fn render_text(p: &Prog, inline: &[bool], ascribe: bool, hidden: Hidden) -> Stri
     s
 }
 
+/// Inlining a node that is used twice writes its expression twice, i.e. turns one (monomorphically
+/// typed) shared node into two independent ones. The rendering still means the original program only
+/// if every copy keeps the original arrow under principal typing of the expanded DAG.
+fn inlining_preserves_types(p: &Prog, inline: &[bool]) -> bool {
+    fn copy(p: &Prog, i: usize, inline: &[bool], memo: &mut Vec<Option<usize>>, out: &mut Dag, origin: &mut Vec<usize>) -> usize {
+        if !inline[i] {
+            if let Some(k) = memo[i] {
+                return k;
+            }
+        }
+        let nd = p.dag[i];
+        let (mut l, mut r) = (0, 0);
+        if nd.sym.arity() >= 1 {
+            l = copy(p, nd.l as usize, inline, memo, out, origin);
+        }
+        if nd.sym.arity() >= 2 {
+            r = copy(p, nd.r as usize, inline, memo, out, origin);
+        }
+        out.push(Node { sym: nd.sym, l: l as u8, r: r as u8 });
+        origin.push(i);
+        memo[i] = Some(out.len() - 1);
+        out.len() - 1
+    }
+    let n = p.dag.len();
+    let mut uses = vec![0usize; n];
+    for nd in &p.dag {
+        if nd.sym.arity() >= 1 {
+            uses[nd.l as usize] += 1;
+        }
+        if nd.sym.arity() >= 2 {
+            uses[nd.r as usize] += 1;
+        }
+    }
+    if !(0..n).any(|i| inline[i] && uses[i] >= 2) {
+        return true;
+    }
+    let (mut out, mut origin) = (vec![], vec![]);
+    copy(p, n - 1, inline, &mut vec![None; n], &mut out, &mut origin);
+    if out.len() > 200 {
+        return false;
+    }
+    match Prog::new(&out, p.fam) {
+        Some(q) => q.arrows.iter().zip(&origin).all(|(a, &o)| *a == p.arrows[o]),
+        None => false,
+    }
+}
+
 #[derive(Debug, Clone, PartialEq, Eq)]
 struct Parsed {
     cmr: [u8; 32],
@@ -269,7 +316,7 @@ fn leg_jets(ctx: &Ctx, out: &mut Out) {
 fn leg_programs(ctx: &Ctx, out: &mut Out) {
     let fam = Fam::Core;
     let mut m = Merkle::default();
-    let nmax = ctx.tier.pick(5, 5);
+    let nmax = ctx.tier.pick(5, 6);
     for n in 1..=nmax {
         let mut alpha = sigma_p(fam);
         alpha.retain(|s| *s != Sym::Disc2);
@@ -328,7 +375,11 @@ fn leg_programs(ctx: &Ctx, out: &mut Out) {
             for mask in 0..(1u32 << k) {
                 let mut inline: Vec<bool> = (0..k).map(|i| mask >> i & 1 == 1).collect();
                 inline.push(false);
-                // a witness / hole may not be duplicated by inlining a shared node that contains it
+                // inlining a shared node whose sharing constrains its type writes a different program
+                if !inlining_preserves_types(&p, &inline) {
+                    out.count("texts:skipped(inlining a shared node changes the typing)", 1);
+                    continue;
+                }
                 for ascribe in [false, true] {
                     for hidden in [Hidden::Expr, Hidden::Literal] {
                         if hidden == Hidden::Literal && !p.has(|s| matches!(s, Sym::AssertL(_) | Sym::AssertR(_))) {
